@@ -898,18 +898,9 @@ class Frame:
         mods = spec.modifies if spec.modifies is not None else sorted(assigned_names(st.body) | assigned_names([st.target]))
         which = eng.choose(2, lname)
         k = T.fresh("k", "int")
+        spec.k = k          # functional havoc: the contract may install the specified state for k completed iterations
         # havoc
-        for name in mods:
-            if self.env.has(name) or name in self.env.vars:
-                try:
-                    old = self.load_name(name)
-                except Unsupported:
-                    old = None
-            else:
-                old = None
-            newv = spec.havoc(self, name, old) if spec.havoc else default_havoc(name, old)
-            if newv is not None:
-                self.env.vars[name] = newv
+        self.havoc_for_spec(spec, mods)
         if which == 0:
             # (b) one arbitrary iteration preserves the invariant
             eng.assume(T.land(T.compare("ge", k, 0), T.compare("lt", k, n)))
@@ -972,6 +963,7 @@ class Frame:
         eng.oblige(f"{lname}/inv-init", T.zb(spec.invariant(self, 0)), kind="inv-init")
         mods = spec.modifies if spec.modifies is not None else sorted(assigned_names(st.body) | assigned_names([st.target]))
         k = T.fresh("k", "int")
+        spec.k = k
         self.havoc_for_spec(spec, mods)
         eng.assume(T.compare("ge", k, 0))
         eng.assume(T.zb(spec.invariant(self, k)))
@@ -995,6 +987,7 @@ class Frame:
         eng.oblige(f"{lname}/inv-init", T.zb(spec.invariant(self, 0)), kind="inv-init")
         mods = spec.modifies if spec.modifies is not None else sorted(assigned_names(st.body))
         k = T.fresh("k", "int")
+        spec.k = k
         self.havoc_for_spec(spec, mods)
         eng.assume(T.compare("ge", k, 0))
         eng.assume(T.zb(spec.invariant(self, k)))
